@@ -11,7 +11,7 @@ MANIFEST = dict(
          "single-participant contributions rejected). Tie to /repo on every run: the Go harness implements the backend interfaces and beacon.Chain over chains built with the real transition "
          "and real BLS signatures, runs the real validators on honest messages of every slot/committee/subnet of a window and on every single-condition corruption (incl. blocks whose parent "
          "lies two and three epochs back, sync messages for a slot in a later, rotated sync-committee period than the signed head block, every topic in the last slot "
-         "before and the first slot after the bellatrix and capella fork-version changes with signatures under the adjacent fork's domain, and sequences of messages about one "
+         "before and the first slot after the bellatrix and capella fork-version changes with signatures under the adjacent fork's domain, attestations of committees whose subnet number wraps past 63 within a slot (3 and 5 committees per slot), and sequences of messages about one "
          "committee validated one after another on one backend, each call also checked not to change the chain view), and the Coq model and the "
          "Spec are evaluated on the same backend facts (vm_compute); verdict and the sequence of Mark* calls are compared.",
     note="Trusted: Coq kernel+VM, the Go harness/driver (incl. its chain backend: the repository has none), the hand-written Impl model (tied by execution, not translation) and the "
